@@ -42,6 +42,18 @@ for sid in ids:
     rows.append((sid, prop, "DETECTED" + (" (no-failing-input-found)" if nf else "") if own.get("exit") == 1 else f"MISSED (exit {own.get('exit')})",
                  own.get("first_detail", "")[:160]))
     print(rows[-1], flush=True)
+# the table always lists every seeded change, from what its meta.json records
+rows = []
+for sid in sorted(d for d in os.listdir(SEEDED) if os.path.isdir(os.path.join(SEEDED, d))):
+    meta = json.load(open(os.path.join(SEEDED, sid, "meta.json")))
+    prop = meta.get("property") or sid.split("-")[0]
+    own = (meta.get("checks_run_with_change_applied") or {}).get(prop)
+    if own is None:
+        rows.append((sid, prop, "NOT RUN", ""))
+        continue
+    nf = any("no-failing-input-found" in l for l in own.get("violation_lines", []))
+    rows.append((sid, prop, "DETECTED" + (" (no-failing-input-found)" if nf else "") if own.get("exit") == 1 else f"MISSED (exit {own.get('exit')})",
+                 own.get("first_detail", "")[:160]))
 with open(os.path.join(SEEDED, "RESULTS.md"), "w") as f:
     f.write("# Seeded changes vs checks (quick tier, change applied to /repo, then undone)\n\n| seeded | property | own check | first detail |\n|---|---|---|---|\n")
     for r in rows:
